@@ -24,7 +24,7 @@ COQ_AGREE = 'agree'
 COQ_SHARD = 150
 REPLAY_KIND = 'schedule'
 IMPL_TIMEOUT = 2400
-EXHAUSTIVE = {'quick': True, 'thorough': True}
+EXHAUSTIVE = {'quick': False, 'thorough': True}    # quick explores some pairs at bound 1 only
 RULE = ('a case = the programs of 2-3 threads (operations get-hit / get-miss / get of a missing row / first use of the class / '
         'create / expire of a held instance / expireAll (cache level and sqlmeta level) / cull triggered through the counters) after a '
         'sequential set-up program, plus ONE schedule.  Schedules: for every pair of operations in every set-up world, ALL schedules '
@@ -44,10 +44,11 @@ TRUSTED_BASE = [
     'line-atomic interleavings only: a thread switch happens between two source statements of the modelled methods, never inside one '
     '(no bytecode-level preemption); database statements (_init SELECT, INSERT) are single steps',
     'garbage collection = immediate CPython reference counting; weak reference callbacks are not used by the code; OS scheduling is not exhibited',
-    'the proved theorems (C09_*_partial) cover get (hit / miss / missing row / first use), create, expire of a held instance and '
-    'forgetting a result, for any number of threads, programs and schedules, under the guard of Model/CacheConcSpec.v (no cull '
-    'triggered; created() not overlapping a get of the same id between its miss and its put); cull, CacheFactory.expireAll and '
-    'sqlmeta.expireAll are in the model, the correspondence and the oracle but outside the proved operation set',
+    'the proved theorems (C09_*_partial) cover get (hit / miss / missing row / first use), create, expire of a held instance, '
+    'cull (triggered through the counters) and forgetting a result, for any number of threads, programs and schedules, under the '
+    'guard of Model/CacheConcSpec.v (created() not overlapping an entry of the same id that exists or is in flight: a get between its '
+    'miss under the lock and its put); CacheFactory.expireAll and sqlmeta.expireAll are in the model, the correspondence and the '
+    'oracle but outside the proved operation set',
     'cache=True connections only in the model and theorems (cache=False runs are judged by the oracle only); __setstate__ (unpickling), '
     'destroySelf, sync and _SO_loadValue are outside the operation list',
     'CPython dict iteration over a dict modified without a change of size is not modelled (such runs are counted, not compared)',
@@ -467,7 +468,8 @@ def classify(c, o, f):
         return None
     tl = timeline(o)
     kind = f.get('kind')
-    if o.get('skeleton'):
+    if o.get('skeleton') or not c.get('cfg', {}).get('cache', 1):
+        # no model labels (Tie A broken), or the cache=False branches the classifiers below do not name
         return classify_by_shape(c, o, f)
     pcnow = {}
     # replay the time line, looking for the overlaps
